@@ -949,6 +949,11 @@ def check(program, rep):
     from . import C14
     from ..constfold import Folder as _Folder
     rep.guard("C14-R5", C14.r5_busy_states, program, _Folder(program), rep)
+    # arguments handed to package functions under the wrong name / same-
+    # named optional parameters not passed on (NAMELINK, DESIGN.md 9.13)
+    from .. import namelink as _nl
+    rep.guard("C05-R5", _nl.rule, program, rep, "C05-R5",
+              [m for m in sorted(program.modules) if m.startswith("rig.place_and_route")])
     return finish(rep, program, EXPLANATION, NOT_DECIDED,
                   trusted=["ORDTYPE evaluator (comparison-only fragment)",
                            "floor-division axioms for a divisor >= 1"])
